@@ -10,7 +10,7 @@ From TLV Require Import Base.Shape Base.PyList Base.Tensor Base.Ops Model.Base M
      Proofs.SvdDecompTuckerErr Proofs.SvdDecompTuckerBound Proofs.SvdDecompHosvdBound
      Proofs.SvdDecompPartial Proofs.SvdDecompTuckerGen Proofs.SvdDecompRingErr Proofs.SvdDecompTTMErr
      Proofs.SvdDecompValidate Proofs.SvdDecompRingPartial Proofs.SvdDecompRingErrR
-     Proofs.SvdDecompRankCond Model.SvdDecompSymeig Proofs.SvdDecompSymeig Proofs.SvdDecompSymeigRing.
+     Proofs.SvdDecompRankCond Model.SvdDecompSymeig Proofs.SvdDecompSymeig Proofs.SvdDecompSymeigRing Proofs.SvdDecompSymeigEig Model.SvdDecompRand Proofs.SvdDecompRand.
 Import ListNotations.
 
 (* exactness of one TT-SVD step, over every commutative ring: truncating + sign-flipping a
@@ -782,3 +782,55 @@ Theorem C09_tensor_train_matrix_symeig_exact_R : forall (svd : nat -> tensor R -
   ttm_entry Rops cores is_ js = get 0%R X (is_ ++ js).
 Proof. exact tensor_train_matrix_symeig_exact_R. Qed.
 Print Assumptions C09_tensor_train_matrix_symeig_exact_R.
+
+(* an eigenvector of the Gram matrix A^T A for the eigenvalue 0 is a null vector of A (|A w|^2 = w^T A^T A w) *)
+Theorem C09_symeig_zero_eigenvalue_null : forall (A : nat -> nat -> R) (p q : nat) (w : nat -> R),
+  (forall j, j < q -> fsumn Rops q (fun j' => (fsumn Rops p (fun i => A i j * A i j') * w j')%R) = 0%R) ->
+  forall i, i < p -> fsumn Rops q (fun j => (A i j * w j)%R) = 0%R.
+Proof. exact gram_null. Qed.
+Print Assumptions C09_symeig_zero_eigenvalue_null.
+
+(* one symeig_svd call under the LITERAL contract of eigh for the Gram matrix the model itself builds (W orthogonal,
+   G W = W diag(lambda)), s = sqrt(clip(lambda, eps)), eps > 0, and "the discarded eigenvalues are zero" *)
+Theorem C09_symeig_eigh_contract_exact_R : forall (eps : R) (M : tensor R) (m n r : nat) (a : svdans),
+  (0 < eps)%R -> symeig_call_eig_ok eps M m n r a -> fact_exact Rops M m n r (svd_interface Rops a r).
+Proof. exact symeig_call_eig_exact. Qed.
+Print Assumptions C09_symeig_eigh_contract_exact_R.
+
+Theorem C09_tensor_train_symeig_eigh_exact_R : forall (svd : nat -> tensor R -> svdans) (eps : R), (0 < eps)%R ->
+  forall (X : tensor R) (rank : rank_spec) (cores : list (tensor R)),
+  tt_symeig_eig_contract svd eps X rank -> tensor_train Rops svd X rank = Ok cores ->
+  forall idx, inb (shape X) idx -> tt_entry Rops cores idx = get 0%R X idx.
+Proof. exact tensor_train_symeig_eig_exact_R. Qed.
+Print Assumptions C09_tensor_train_symeig_eigh_exact_R.
+
+Example C09_nonvacuous_symeig_eigh_contract : forall (eps : R) (r : nat), (0 < eps)%R -> r = 1 \/ r = 2 ->
+  symeig_call_eig_ok eps exM 2 2 r (symeig_ans Rops exM exW (map (fun x => sqrt (clip_min Rops eps x)) exLam)).
+Proof. exact symeig_eig_contract_satisfiable. Qed.
+
+(* ============================================================ svd = "randomized_svd" (Model/SvdDecompRand.v) ============ *)
+(* one randomized_svd call (both branches of the code): exact when the range finder captured the range (Q Q^T M = M, resp.
+   M Q Q^T = M) and the inner truncated SVD multiplies back to the reduced matrix; nothing else is assumed about the Gaussian
+   test matrix, the QR oracle or Q *)
+Theorem C09_randomized_call_exact_R : forall (M : tensor R) (m n r : nat) (a : svdans),
+  rand_call_ok M m n r a -> fact_exact Rops M m n r (svd_interface Rops a r).
+Proof. exact rand_call_ok_step_exact. Qed.
+Print Assumptions C09_randomized_call_exact_R.
+
+Theorem C09_tensor_train_randomized_exact_R : forall (svd : nat -> tensor R -> svdans)
+  (X : tensor R) (rank : rank_spec) (cores : list (tensor R)),
+  tt_rand_contract svd X rank -> tensor_train Rops svd X rank = Ok cores ->
+  forall idx, inb (shape X) idx -> tt_entry Rops cores idx = get 0%R X idx.
+Proof. exact tensor_train_randomized_exact_R. Qed.
+Print Assumptions C09_tensor_train_randomized_exact_R.
+
+Theorem C09_tensor_ring_randomized_exact_R : forall (svd : nat -> tensor R -> svdans)
+  (X : tensor R) (rank : rank_spec) (mode : nat) (cores : list (tensor R)),
+  tr_pred Rops svd rand_call_ok X rank mode -> tensor_ring Rops svd X rank mode = Ok cores ->
+  forall idx, inb (shape X) idx -> tr_entry Rops cores idx = get 0%R X idx.
+Proof. exact tensor_ring_randomized_exact_R. Qed.
+Print Assumptions C09_tensor_ring_randomized_exact_R.
+
+Example C09_nonvacuous_randomized_contract :
+  rand_call_ok rxM 2 2 1 (randomized_svd Rops (fun _ _ => rxI) (fun _ => (rxI, [2; 0]%R, rxI)) rxM rxI 1 5 0).
+Proof. exact rand_contract_satisfiable. Qed.
